@@ -3,7 +3,7 @@
    merge (document after the call, exception if any): the theorems hold for
    C05's model (MultiDocRun.merge2_model) and for every other instance. *)
 From Coq Require Import List ZArith Bool.
-From YP Require Import Outcome MultiDoc MultiDocProofs.
+From YP Require Import Outcome MergeConfig MultiDoc MultiDocProofs.
 (* obligations tying the models' literal tables to the tables regenerated from the source *)
 From YP Require Import GenTables.
 Import ListNotations.
@@ -53,12 +53,35 @@ Proof. exact (matrix_is_map_fold doc merge2). Qed.
 Theorem C18_matrix_count :
   forall ls rs st0 out st, merge_matrix_from doc merge2 ls rs st0 = Ok (out, st) -> length out = length ls.
 Proof. exact (matrix_output_count doc merge2). Qed.
+
+(* merge_docs, the dispatcher above the three drivers: the stream loaded from the
+   right-hand file reaches the driver of the selected mode whole and in order
+   (no document -- an empty one included -- is dropped before the dispatch); an
+   unloadable file is exit state 3 with the left documents untouched *)
+Theorem C18_docs_dispatch :
+  forall m ls rs,
+    merge_docs doc merge2 (Ok m) (Some rs) ls =
+    match m with
+    | MCondense => merge_condense_all doc merge2 ls rs
+    | MAcross => merge_across doc merge2 ls rs
+    | MMatrix => merge_matrix doc merge2 ls rs
+    end.
+Proof. exact (merge_docs_dispatch doc merge2). Qed.
+Theorem C18_docs_unloaded :
+  forall m ls, merge_docs doc merge2 (Ok m) None ls = Ok (ls, 3).
+Proof. exact (merge_docs_unloaded doc merge2). Qed.
+Theorem C18_docs_across_count :
+  forall ls rs out, all_succeed -> merge_docs doc merge2 (Ok MAcross) (Some rs) ls = Ok (out, 0) ->
+    length out = Nat.max (length ls) (length rs).
+Proof. exact (merge_docs_across_count doc merge2). Qed.
 End C18.
 
 Print Assumptions C18_condense.
 Print Assumptions C18_across.
 Print Assumptions C18_matrix.
 Print Assumptions C18_matrix_count.
+Print Assumptions C18_docs_dispatch.
+Print Assumptions C18_docs_across_count.
 
 (* Non-vacuity: documents = lists of numbers, merge = append, failing on a right
    document that starts with 0 *)
@@ -79,4 +102,13 @@ Example C18_error_states :
   merge_condense_all _ toy [[1]] [[0]; [3]] = Ok ([[1; 3]], 13) /\
   merge_across _ toy [[1]; [2]; [9]] [[3]; [0]; [5]] = Ok ([[1; 3]; [2]; [9]], 31) /\
   merge_matrix _ toy [[1]; [2]] [[3]; [0]; [4]] = Ok ([[1; 3]; [2; 3]], 41).
+Proof. repeat split; reflexivity. Qed.
+
+From Coq Require Import String.
+(* merge_docs: an empty right-hand document (here []) keeps its place in the stream *)
+Example C18_docs_example :
+  merge_docs _ toy (get_multidoc_mode (Some "merge_across"%string)) (Some [[3]; []; [5]]) [[1]; [2]; [9]]
+    = Ok ([[1; 3]; [2]; [9; 5]], 0) /\
+  merge_docs _ toy (get_multidoc_mode None) (Some [[3]; []]) [[1]; [2]] = Ok ([[1; 2; 3]], 0) /\
+  merge_docs _ toy (get_multidoc_mode (Some "matrix_merge"%string)) None [[1]] = Ok ([[1]], 3).
 Proof. repeat split; reflexivity. Qed.
